@@ -3,6 +3,7 @@ Monitor: cmp / partial_cmp of the educed impls on all ordered pairs of a value s
 reference (rank sort, first non-Equal, None propagation); partial_cmp == Some(cmp) when both are
 educed; order laws on the recorded table; custom-method argument order from the event log."""
 import json
+import re
 
 from .. import behave as BH
 from .. import gen as G
@@ -65,6 +66,62 @@ def expected(td, va, vb, key, partial):
     return 0
 
 
+SLOT_RE = re.compile(r"[TCP]\d+\.(\d+)\.-?\d+\.\d+")
+
+
+def visited(td, va, vb, key):
+    """the compared fields the impl has to visit, in order: rank order up to and including the first decisive one"""
+    (ia, fa), (ib, fb) = va, vb
+    if ia != ib:
+        return []
+    garg = td.notes["garg"]
+    out = []
+    for f in M.compared_fields(td, td.variants[ia], key):
+        a, b = fa[f.slot], fb[f.slot]
+        s = f.sem.get(key, {})
+        r = BH.method_cmp(s["method"], a, b) if s.get("method") else BH.builtin_pcmp(f.kind, garg, a, b)
+        out.append(f)
+        if r is None or r != 0:
+            break
+    return out
+
+
+def events_problem(td, va, vb, key, ev):
+    """each visited field is compared once, in order, and nothing behind the decisive field is evaluated at all"""
+    want = visited(td, va, vb, key)
+    order = [f.slot for f in want]
+    leaf_events, seen, n_method = {}, [], 0
+    for e in (ev.split(",") if ev != "-" else []):
+        if e.startswith("pc:") or e.startswith("c:"):
+            slot = int(e.split(":", 1)[1].split("/")[0].split(".")[1])
+            leaf_events[slot] = leaf_events.get(slot, 0) + 1
+        elif e.startswith("m_"):
+            n_method += 1
+            m = SLOT_RE.search(e)
+            if not m:
+                continue    # the arguments carry no position (None, an empty Vec, a plain integer)
+            slot = int(m.group(1))
+        else:
+            continue
+        if slot not in seen:
+            seen.append(slot)
+    extra = [sl for sl in seen if sl not in order]
+    if extra:
+        return "field %d was compared although %s" % (extra[0], "an earlier field had already decided" if va[0] == vb[0] else
+                                                       "the operands are different variants")
+    if [sl for sl in order if sl in seen] != seen:
+        return "fields were compared in the order %s, rank order is %s" % (seen, order)
+    methods = [f for f in want if f.sem.get(key, {}).get("method")]
+    if n_method != len(methods):
+        return "%d custom-method calls for %d visited method fields" % (n_method, len(methods))
+    for f in want:
+        if f.sem.get(key, {}).get("method"):
+            continue
+        if (f.kind.key in ("T", "Ct", "P", "BoxT", "RefT") or (f.kind.key in ("G", "WrapG", "RefG"))) and leaf_events.get(f.slot, 0) != 1:
+            return "field %d was compared %d times" % (f.slot, leaf_events.get(f.slot, 0))
+    return None
+
+
 def lawful_value(td, v, key):
     garg = td.notes["garg"]
     i, fs = v
@@ -114,6 +171,10 @@ def judge(chk, c, obs, dropped):
                 return
             continue
         table[(op, i, j)] = BH.ORD[res[0]]
+        prob = events_problem(td, c.vals[i], c.vals[j], key, ev)
+        if prob:
+            chk.violation("evaluation|%s" % td.kind, "%s: %s\na = %s\nb = %s\nevents: %s\n%s" % (op, prob, c.vals[i], c.vals[j], ev, c.text), files)
+            return
         ok, k = BH.method_events_ok(ev)
         mev += k
         if not ok:
